@@ -66,8 +66,7 @@ func c12Parse(b []byte) (sender int, id uint64, epoch byte, ok bool) {
 	return int(b[4]), binary.BigEndian.Uint64(b[8:]), b[5], true
 }
 
-func c12Case(r *ev.Run, sf stackFactory, g *rng.R, caseID string, G int, replyInCallback bool, outAsk bool) {
-	twoClosers := g.Chance(1, 3)
+func c12Case(r *ev.Run, sf stackFactory, g *rng.R, caseID string, G int, replyInCallback bool, outAsk bool, twoClosers, quietAtClose bool) {
 	base := libGoroutines()
 	st, err := sf.Build(stackOptsFor(sf.Name, g))
 	if err != nil {
@@ -82,6 +81,7 @@ func c12Case(r *ev.Run, sf stackFactory, g *rng.R, caseID string, G int, replyIn
 			d = map[string]any{}
 		}
 		d["stack"], d["blocked_receivers"], d["reply_in_callback"], d["own_ask_in_flight"], d["two_concurrent_closers"] = name, G, replyInCallback, outAsk, twoClosers
+		d["peers_silent_at_close"] = quietAtClose
 		r.Violate("C12/"+sig+"/"+name, caseID, desc, d)
 	}
 	var closeReturned atomic.Bool
@@ -150,6 +150,7 @@ func c12Case(r *ev.Run, sf stackFactory, g *rng.R, caseID string, G int, replyIn
 		}
 	}
 	// peers tell (and ask) the target continuously
+	var paused atomic.Bool
 	pctx, pcancel := context.WithCancel(bg)
 	var pwg sync.WaitGroup
 	var told atomic.Int64
@@ -173,6 +174,10 @@ func c12Case(r *ev.Run, sf stackFactory, g *rng.R, caseID string, G int, replyIn
 				defer pwg.Done()
 				var id uint64
 				for pctx.Err() == nil {
+					if paused.Load() {
+						time.Sleep(200 * time.Microsecond)
+						continue
+					}
 					id++
 					epoch := byte(0)
 					if closeReturned.Load() {
@@ -264,6 +269,21 @@ func c12Case(r *ev.Run, sf stackFactory, g *rng.R, caseID string, G int, replyIn
 	}
 	warm := delivered.Load()
 	time.Sleep(time.Duration(g.Intn(3000)) * time.Microsecond)
+	if quietAtClose {
+		// the peers fall silent shortly before Close: the receivers are then truly blocked (in the hub, the queue, the socket)
+		// at the moment of Close instead of busy in callbacks; the peers resume once Close has returned
+		paused.Store(true)
+		// ... and what they had already sent is consumed: wait until deliveries stop
+		last, still := delivered.Load(), 0
+		for w := 0; w < 400 && still < 4; w++ {
+			time.Sleep(time.Millisecond)
+			if cur := delivered.Load(); cur == last {
+				still++
+			} else {
+				last, still = cur, 0
+			}
+		}
+	}
 	// ---- Close
 	closeDone := make(chan struct{})
 	var closePanic atomic.Value
@@ -301,6 +321,7 @@ func c12Case(r *ev.Run, sf stackFactory, g *rng.R, caseID string, G int, replyIn
 	}()
 	tornDown := false
 	teardown := func() {
+		paused.Store(false)
 		releaseAsk()
 		pcancel()
 		done := make(chan struct{})
@@ -341,6 +362,7 @@ func c12Case(r *ev.Run, sf stackFactory, g *rng.R, caseID string, G int, replyIn
 		teardown()
 		return
 	}
+	paused.Store(false) // Close has returned: the peers talk again (what they send now was created after Close)
 	if p := closePanic.Load(); p != nil {
 		viol("close-panicked", "Close panicked: "+p.(string), nil)
 		teardown()
@@ -479,7 +501,7 @@ func trimStacks(s string, n int) string {
 }
 
 func runC12(r *ev.Run) {
-	r.Rule = "per stack: G in {1,4,16} goroutines blocked in Receive (and ServeAsk) with non-expiring contexts on one node while two peers tell/ask it continuously, optionally replying from inside the callbacks, optionally with an Ask of its own outstanding (the peer's handler has started and is held); Close at a seeded moment, in a third of the cases from two goroutines at once (seeded delays at hub/queue hook points); monitors: Close itself, the blocked calls, a second Close and 50 further calls must not stay parked (two goroutine snapshots 1 s apart) and must not report success; messages created after Close returned (epoch flag set by the harness after Close returned) must never reach a callback; after closing every swarm of the stack no goroutine started by them may remain. non-trivial = deliveries were flowing when Close was called; distinct = (stack, G, reply-in-callback, traffic overlap)"
+	r.Rule = "per stack: G in {1,4,16} goroutines blocked in Receive (and ServeAsk) with non-expiring contexts on one node while two peers tell/ask it continuously, optionally replying from inside the callbacks, optionally with an Ask of its own outstanding (the peer's handler has started and is held); Close at a seeded moment, in a third of the cases from two goroutines at once, in a third after the peers have fallen silent (receivers truly blocked) (seeded delays at hub/queue hook points); monitors: Close itself, the blocked calls, a second Close and 50 further calls must not stay parked (two goroutine snapshots 1 s apart) and must not report success; messages created after Close returned (epoch flag set by the harness after Close returned) must never reach a callback; after closing every swarm of the stack no goroutine started by them may remain. non-trivial = deliveries were flowing when Close was called; distinct = (stack, G, reply-in-callback, traffic overlap)"
 	g := rng.New(r.Seed, "C12", fmt.Sprint(r.Batch))
 	idx := 0
 	for _, sf := range allStacks() {
@@ -500,7 +522,7 @@ func runC12(r *ev.Run) {
 						continue
 					}
 					armHooks(cg, []uint16{verifhook.TellHubReceiveEnter, verifhook.TellHubReceiveBlock, verifhook.TellHubDeliver, verifhook.AskHubServe, verifhook.AskHubDeliver, verifhook.QueueDeliverMid, verifhook.QueueReceiveAfterFn})
-					c12Case(r, sf, cg, caseID, G, reply, cg.Chance(1, 2))
+					c12Case(r, sf, cg, caseID, G, reply, cg.Chance(1, 2), idx%3 == 1, idx%3 == 0)
 					verifhook.DisarmAll()
 				}
 			}
